@@ -36,7 +36,7 @@ theorem gwf_of_wfI {n : Nat} {rows : List GRow} (h : WfI n rows) : GWf n rows :=
   obtain ⟨i, hi, rfl⟩ := (mem_iff_rowAt rows r).mp hr
   exact h i hi
 
-theorem rowAt_map (rows : List GRow) (f : GRow → GRow) (i : Nat) (hi : i < rows.length) :
+theorem rowAt_mapG (rows : List GRow) (f : GRow → GRow) (i : Nat) (hi : i < rows.length) :
     rowAt (rows.map f) i = f (rowAt rows i) := by
   simp [rowAt, hi]
 
